@@ -230,17 +230,27 @@ def tieBreakers : Nat → List Nat
   | 1 => [1, 2, 0]
   | _ => [2, 0, 1]
 
+/-- order of the entries' addresses, when both nodes have an entry -/
+def addrOrd (a b : Tree) : Option Ordering :=
+  match a.addr?, b.addr? with
+  | some x, some y => some (compare x y)
+  | _, _ => none
+
+/-- one attribute of `cmp_by_attr` (0 kind, 1 name, 2 location with the address tie-break) -/
+def attrCmp (a b : Tree) (at' : Nat) : Ordering :=
+  match at' with
+  | 0 => compare a.kind b.kind
+  | 1 => cmpDisplayName a b
+  | _ => let l := optLocCmp a.location b.location
+         if l == .eq then (addrOrd a b).getD .eq else l
+
+/-- lexicographic combination of the attributes in the given order -/
+def lexAttrs (a b : Tree) (l : List Nat) : Ordering :=
+  l.foldl (fun acc at' => thenCmp acc (attrCmp a b at')) .eq
+
 /-- `cmp_by_attr` (attr: 0 kind, 1 name, 2 location) -/
 def cmpByAttr (attr : Nat) (a b : Tree) : Ordering :=
-  let addrOrd : Option Ordering := match a.addr?, b.addr? with
-    | some x, some y => some (compare x y)
-    | _, _ => none
-  if addrOrd == some .eq then .eq else
-  (tieBreakers attr).foldl (fun acc at' => thenCmp acc (match at' with
-    | 0 => compare a.kind b.kind
-    | 1 => cmpDisplayName a b
-    | _ => let l := optLocCmp a.location b.location
-           if l == .eq then addrOrd.getD .eq else l)) .eq
+  if addrOrd a b == some .eq then .eq else lexAttrs a b (tieBreakers attr)
 
 def applyRev (rev : Bool) (o : Ordering) : Ordering := if rev then o.swap else o
 
